@@ -17,7 +17,7 @@ from ..consteval import fold_expr, fold_const, Regex, EnumMember, Opaque
 from .. import tables, rx
 from ..tables import Atom
 from .c01_sym import SymPath, sym_paths, is_call, show, subterms, private_helpers
-from .c01_parser import MPARSER, mro_cached, _summaries, semantic, ctor_binding
+from .c01_parser import MPARSER, mro_cached, _summaries, semantic, ctor_binding, actual_name
 from . import c01_eval
 from .c01_eval import IB, EvalFn, views, abstract, fmt, EV, NONE, dispatch_arms, arm_method, rename
 
@@ -377,8 +377,11 @@ def r2(ctx: RuleCtx) -> None:
             raise Undecided('operator.MAPPING does not map to enum members')
         members[v.name] = v
     # -- parser side: token id -> string on the node ------------------------------------------------
-    maps = {n: fold_expr(repo, mp, ast.Name(id=n, ctx=ast.Load())) for n in ('COMPARISON_MAP', 'ADDSUB_MAP', 'MULDIV_MAP')}
-    level_of = {'COMPARISON_MAP': 'e4', 'ADDSUB_MAP': 'e5', 'MULDIV_MAP': 'e6'}
+    for lvl in ('e4', 'e5', 'e6'):
+        _summaries(ctx, mp, lvl)          # registers the actual names of the token tables by role
+    role_level = {'COMPARISON_MAP': 'e4', 'ADDSUB_MAP': 'e5', 'MULDIV_MAP': 'e6'}
+    maps = {actual_name(repo, r): fold_expr(repo, mp, ast.Name(id=actual_name(repo, r), ctx=ast.Load())) for r in role_level}
+    level_of = {actual_name(repo, r): l for r, l in role_level.items()}
     node_string: T.Dict[str, T.Tuple[str, str]] = {}        # spelling -> (node class, string stored)
     for spelling, (member, pyop) in BINARY.items():
         tids, whys = lt.tokens_of(spelling)
@@ -406,7 +409,7 @@ def r2(ctx: RuleCtx) -> None:
             if len(consts) == 1 and next(iter(consts))[0] == 'const':
                 stored = ('e4:not+in', next(iter(consts))[1])
         if stored is None:
-            ctx.violation(mp, '<module>', f'operator {spelling}: no parser table takes {tids}', f'`{spelling}` is lexed as {tids}, which no operator table of the parser accepts', mp.assign_value('COMPARISON_MAP'))
+            ctx.violation(mp, '<module>', f'operator {spelling}: no parser table takes {tids}', f'`{spelling}` is lexed as {tids}, which no operator table of the parser accepts', mp.assign_value(actual_name(repo, 'COMPARISON_MAP')))
             continue
         table, s2 = stored
         ctx.require(s2 == spelling, f'`{spelling}`: token {"+".join(tids)} -> {table} -> node string {s2!r}', mp, '<module>', f'{table}: {"+".join(tids)} -> {s2!r}',
@@ -699,6 +702,12 @@ def r3(ctx: RuleCtx) -> None:
         else:
             ok = any(any(a.kind == 'exc' and a.term.split('.')[-1] == 'IndexError' for a in sp.actions) for r, sp in raises)
             what = 'IndexError is converted to InvalidArguments'
+            if not ok:
+                # positive evidence of an escaping IndexError: an unguarded, unprotected `held[other]`; anything else (explicit bounds test ...) is undecided
+                plain = not any(isinstance(n, ast.Try) for n in ast.walk(impl.fn)) and all(not sp.conds() for r, sp in rets) and not raises
+                handles_other = any(isinstance(n, ast.ExceptHandler) for n in ast.walk(impl.fn))
+                if not plain and not handles_other:
+                    raise Undecided(f'{holder} INDEX: out-of-range handling is not the try/except IndexError idiom')
         ok = ok and all(is_call(r) and r[2].split('.')[-1] == 'InvalidArguments' for r, sp in raises)
         ctx.require(ok, f'{holder} INDEX: {what}', impl.mod, f'{impl.owner}.{impl.fn.name}', f'{holder} INDEX error conversion',
                     f'{holder} indexing does not guarantee that {what}: an out-of-range / missing index would escape as a Python exception or a wrong error', impl.fn)
